@@ -1,4 +1,4 @@
-import Mutagen.Proofs.Rsync
+import Mutagen.Proofs.RsyncWF
 /-!
 # C20 — rsync transfers report every transmission failure
 
@@ -85,13 +85,9 @@ theorem deltify_failure_is_last_call (fails : Nat → Bool) (target : List UInt8
   · simp [hx] at hne
 
 /-- `DeltifyBytes` (transmitter that never fails) returns exactly the plan. -/
-theorem deltifyBytes_eq_plan (target : List UInt8) (sig : Signature D) (maxDataOpSize : Nat) :
-    deltifyBytes H target sig maxDataOpSize = plan H target sig maxDataOpSize := by
-  unfold deltifyBytes
-  have hnf := scripted_no_failure (fun _ => false) (plan H target sig maxDataOpSize).1 (by intros; rfl)
-  rw [deltify_eq_runOps]
-  simp only [hnf, Bool.false_eq_true, if_false]
-  exact Prod.ext (scripted_log_ok _ _ hnf).2.1 rfl
+theorem deltifyBytes_is_plan (target : List UInt8) (sig : Signature D) (maxDataOpSize : Nat) :
+    deltifyBytes H target sig maxDataOpSize = plan H target sig maxDataOpSize :=
+  deltifyBytes_eq_plan H target sig maxDataOpSize
 
 /-- **`Transmit` (transmit.go) reports every reception failure**: for every
 script of failing `Receive` calls, every list of files (openable or not) and
